@@ -345,6 +345,8 @@ func (vc *VC) zeroValue(t SType) Value {
 		return vc.wrap(Zero, t)
 	case KBool:
 		return False
+	case KSet, KSeq:
+		return ZeroOf(t.SortOf())
 	case KArray:
 		vc.fail("array zero value unsupported")
 	}
